@@ -313,42 +313,7 @@ func relayout(rt *rapid.T, tmpl, payload string, cond bool) string {
 
 func TestScanContextClosed(t *testing.T) {
 	hx.Rule("scan_context_closed", "documented payloads (3 tautologies, 6 time-delay/dangerous calls, 4 UNION probes) x condition/expression positions of the grammar (61 for conditions/calls incl. operand positions under comparisons, arithmetic, casts and CASE, MERGE ON / WHEN conditions, SET and INSERT values and view bodies, 6 for UNION probes, nesting depth up to 2) x layouts (whitespace, keyword/function letter case, redundant parentheses) x 4 severity thresholds; the class/severity reported for the payload as top-level WHERE condition must be reported at every position and layout; thresholds filter exactly; counts equal the list; the tree is not mutated; A,B,A scans agree; a used scanner whose MinSeverity field is changed between scans answers like a fresh one; non-trivial = position is not the base and nesting depth >= 1; distinct = payload x position x layout hash")
-	scanCheck.Rapid(t, hx.N(60000, 600000), func(rt *rapid.T) ScanCase {
-		p := rapid.SampledFrom(payloads).Draw(rt, "payload")
-		var c ScanCase
-		depth := 0
-		if p.Kind == "union" {
-			pos := rapid.SampledFrom(unionPositions).Draw(rt, "upos")
-			c = ScanCase{Payload: p.Name, Position: "union_" + pos.Name, Base: fmt.Sprintf(unionPositions[0].Tmpl, p.Text), SQL: fmt.Sprintf(pos.Tmpl, p.Text), Laid: relayout(rt, pos.Tmpl, p.Text, false)}
-			depth = pos.Depth
-		} else {
-			pos := rapid.SampledFrom(positions).Draw(rt, "pos")
-			for pos.CallOnly && p.Kind != "call" {
-				pos = positions[rapid.IntRange(0, len(positions)-1).Draw(rt, "pos2")]
-			}
-			c = ScanCase{Payload: p.Name, Position: pos.Name, Base: fmt.Sprintf(positions[0].Tmpl, p.Text), SQL: fmt.Sprintf(pos.Tmpl, p.Text), Laid: relayout(rt, pos.Tmpl, p.Text, !pos.CallOnly)}
-			depth = pos.Depth
-		}
-		multi := rapid.IntRange(0, 3).Draw(rt, "multi")
-		var mcl []string
-		if multi > 0 {
-			// several top-level statements: findings accumulate over the script
-			pre := rapid.SampledFrom([]string{"DELETE FROM u WHERE 1 = 1", "SELECT b FROM u WHERE c = 2", "UPDATE u SET a = SLEEP ( 1 ) WHERE b = 2"}).Draw(rt, "pre")
-			post := rapid.SampledFrom([]string{"SELECT 1", "SELECT b FROM u WHERE 'x' = 'x'", "INSERT INTO u VALUES ( 1 )"}).Draw(rt, "post")
-			switch multi {
-			case 1:
-				c.SQL, c.Laid = pre+" ; "+c.SQL, pre+" ;\n"+c.Laid
-			case 2:
-				c.SQL, c.Laid = c.SQL+" ; "+post, c.Laid+"\n;\n"+post
-			default:
-				c.SQL, c.Laid = pre+" ; "+c.SQL+" ; "+post, pre+" ; "+c.Laid+" ; "+post
-			}
-			mcl = append(mcl, "multi_statement")
-		}
-		hx.Case("scan_context_closed", c.Position != "where" && c.Position != "union_top" && depth >= 1, c.Payload+"|"+c.Position+"|"+fmt.Sprint(hx.H(c.Laid)%64), append(mcl, "payload_"+p.Kind, "pos_"+c.Position)...)
-		hx.Sample("scan_context_closed", c)
-		return c
-	})
+	scanCheck.Rapid(t, hx.N(60000, 600000), genScanPositions)
 }
 
 // exhaustive grid payload x position in canonical layout
@@ -464,3 +429,44 @@ func TestScanSQLLayoutInvariant(t *testing.T) {
 		return c
 	})
 }
+
+// genScanPositions is the case generator of scanCheck (shared by the rapid run and the native fuzz target).
+func genScanPositions(rt *rapid.T) ScanCase {
+	p := rapid.SampledFrom(payloads).Draw(rt, "payload")
+	var c ScanCase
+	depth := 0
+	if p.Kind == "union" {
+		pos := rapid.SampledFrom(unionPositions).Draw(rt, "upos")
+		c = ScanCase{Payload: p.Name, Position: "union_" + pos.Name, Base: fmt.Sprintf(unionPositions[0].Tmpl, p.Text), SQL: fmt.Sprintf(pos.Tmpl, p.Text), Laid: relayout(rt, pos.Tmpl, p.Text, false)}
+		depth = pos.Depth
+	} else {
+		pos := rapid.SampledFrom(positions).Draw(rt, "pos")
+		for pos.CallOnly && p.Kind != "call" {
+			pos = positions[rapid.IntRange(0, len(positions)-1).Draw(rt, "pos2")]
+		}
+		c = ScanCase{Payload: p.Name, Position: pos.Name, Base: fmt.Sprintf(positions[0].Tmpl, p.Text), SQL: fmt.Sprintf(pos.Tmpl, p.Text), Laid: relayout(rt, pos.Tmpl, p.Text, !pos.CallOnly)}
+		depth = pos.Depth
+	}
+	multi := rapid.IntRange(0, 3).Draw(rt, "multi")
+	var mcl []string
+	if multi > 0 {
+		// several top-level statements: findings accumulate over the script
+		pre := rapid.SampledFrom([]string{"DELETE FROM u WHERE 1 = 1", "SELECT b FROM u WHERE c = 2", "UPDATE u SET a = SLEEP ( 1 ) WHERE b = 2"}).Draw(rt, "pre")
+		post := rapid.SampledFrom([]string{"SELECT 1", "SELECT b FROM u WHERE 'x' = 'x'", "INSERT INTO u VALUES ( 1 )"}).Draw(rt, "post")
+		switch multi {
+		case 1:
+			c.SQL, c.Laid = pre+" ; "+c.SQL, pre+" ;\n"+c.Laid
+		case 2:
+			c.SQL, c.Laid = c.SQL+" ; "+post, c.Laid+"\n;\n"+post
+		default:
+			c.SQL, c.Laid = pre+" ; "+c.SQL+" ; "+post, pre+" ; "+c.Laid+" ; "+post
+		}
+		mcl = append(mcl, "multi_statement")
+	}
+	hx.Case("scan_context_closed", c.Position != "where" && c.Position != "union_top" && depth >= 1, c.Payload+"|"+c.Position+"|"+fmt.Sprint(hx.H(c.Laid)%64), append(mcl, "payload_"+p.Kind, "pos_"+c.Position)...)
+	hx.Sample("scan_context_closed", c)
+	return c
+}
+
+// FuzzScanPositions: coverage-guided search over the same generator (thorough tier).
+func FuzzScanPositions(f *testing.F) { scanCheck.Fuzz(f, genScanPositions) }
